@@ -9,6 +9,9 @@
                           union, in map order) and the error rule
      combineErrors        identical errors: one of them; kb.ErrLookupFailure yields to the other; else Join
      FindProvidersAsync   the merging goroutine: loop condition, `found` set, count
+   and, at the end of the file, what an inner IpfsDHT stores / attaches at the three sites
+   that handle provider records (handlers.go handleAddProvider, handleGetProviders;
+   routing.go findProvidersAsyncRoutine), for the WAN / LAN address filter of AddrClass.v.
    Abstracted: the inner IpfsDHT operations are inputs (their results, errors and the
    order in which their provider streams deliver); contexts/cancellation and the
    query-event forwarding are not modelled; Go map iteration order is a set. *)
@@ -140,3 +143,65 @@ Definition prov_merge (count : Z) (arrivals : list arrival) : list nat := p_out 
 
 Definition arrived (arrivals : list arrival) : list nat :=
   flat_map (fun a => match a with AProv _ p => [p] | AClosed _ => [] end) arrivals.
+
+(* ---- provider records: the three sites where a DHT stores or forwards addresses ------------------
+   that it learned from a provider message.
+
+   Transcribed (the code as it is):
+     handlers.go handleAddProvider (:232-279)
+        key of length 0 or > 80: error, nothing is stored;
+        for every entry of pmes.ProviderPeers, in order:
+          pi.ID != p (the sender)     -> skipped
+          len(pi.Addrs) < 1           -> skipped       (tested BEFORE the filter)
+          addrs := dht.filterAddrs(pi.Addrs)
+          providerStore.AddProvider(key, {pi.ID, addrs})   (also when addrs is now empty)
+        no entry accepted: error "no valid provider"
+     records/providers_manager.go AddProvider (:189-207)
+        provInfo.ID != pm.self -> pstore.AddAddrs(provInfo.ID, provInfo.Addrs, ttl); the
+        (key, provider) pair is recorded in every case
+     handlers.go handleGetProviders (:176-215)
+        same key test; every provider of the store is attached with
+        dht.filterAddrs(<its peerstore addresses>) (a provider left without an address is
+        still attached), until the message would exceed network.MessageSizeMax
+     routing.go findProvidersAsyncRoutine (:587-589) + dht.go maybeAddAddrs (:958-964)
+        for every provider entry of a GET_PROVIDERS response that is processed (the loop
+        stops once count providers are known):
+          prov.ID == self or connected -> nothing
+          else peerstore.AddAddrs(prov.ID, dht.filterAddrs(prov.Addrs), TempAddrTTL)
+        (no query-filter admission here, unlike closer peers)
+   Abstracted: peers are numbers; boundPeerRecordAddrs (a record above MaxPeerRecordSize
+   keeps a prefix of its addresses) and undecodable addresses are not modelled: [pe_addrs]
+   is the address list after decoding; the provider store never fails; the size cap of a
+   GET_PROVIDERS response and the count cut-off of the provider search are the
+   parameters [fit] / the list [processed] (the theorems hold for every value). *)
+
+Record pentry := PE_ { pe_id : nat; pe_addrs : list maddr }.
+
+Definition filter_entry (s : side) (e : pentry) : pentry := PE_ (pe_id e) (addr_filter s (pe_addrs e)).
+
+(* handleAddProvider: the entries that reach providerStore.AddProvider *)
+Definition add_provider_accepts (sender : nat) (e : pentry) : bool :=
+  Nat.eqb (pe_id e) sender && match pe_addrs e with [] => false | _ => true end.
+Definition add_provider_calls (s : side) (key_ok : bool) (sender : nat) (msg : list pentry) : list pentry :=
+  if key_ok then map (filter_entry s) (filter (add_provider_accepts sender) msg) else [].
+(* ProviderManager.AddProvider: the (peer, address) pairs written to the peerstore *)
+Definition pm_writes (self : nat) (c : pentry) : list (nat * maddr) :=
+  if Nat.eqb (pe_id c) self then [] else map (pair (pe_id c)) (pe_addrs c).
+Definition add_provider_writes (s : side) (key_ok : bool) (self sender : nat) (msg : list pentry) : list (nat * maddr) :=
+  flat_map (pm_writes self) (add_provider_calls s key_ok sender msg).
+(* the providers recorded for the key, and whether the handler returns an error *)
+Definition add_provider_recorded (s : side) (key_ok : bool) (sender : nat) (msg : list pentry) : list nat :=
+  map pe_id (add_provider_calls s key_ok sender msg).
+Definition add_provider_err (s : side) (key_ok : bool) (sender : nat) (msg : list pentry) : bool :=
+  match add_provider_calls s key_ok sender msg with [] => true | _ => false end.
+
+(* handleGetProviders: the provider records attached to the response; [provs] = the
+   providers of the store with their peerstore addresses, [fit] = how many fit *)
+Definition get_providers_attached (s : side) (key_ok : bool) (fit : nat) (provs : list pentry) : list pentry :=
+  if key_ok then firstn fit (map (filter_entry s) provs) else [].
+
+(* findProvidersAsyncRoutine: peerstore writes for the processed provider entries *)
+Definition find_providers_writes (s : side) (self : nat) (connected : nat -> bool) (processed : list pentry)
+    : list (nat * maddr) :=
+  flat_map (fun e => if Nat.eqb (pe_id e) self || connected (pe_id e) then []
+                     else map (pair (pe_id e)) (addr_filter s (pe_addrs e))) processed.
